@@ -235,7 +235,46 @@ class ExtScriptState(ScriptState):
                     if not ks.startswith("vgi_rpc."):
                         md[ks] = v.decode() if isinstance(v, bytes) else v
             EVENTS.append(("input", self.tag, self.i, b.num_rows, digest(b.to_pydict()), sorted(md.items())))
+        steps = json.loads(self.prog)
+        act = steps[self.i]["act"] if self.i < len(steps) else None
+        b = (act.get("emit") or act.get("emit_finish")) if isinstance(act, dict) else None
+        if b and b.get("ent"):
+            out = _EntropyOut(out, b)      # same call, high-entropy column values
         super().process(input, out, ctx)
+
+
+def column_values(ident: int, rows: int, ent: str | None) -> list[int]:
+    """Column data of an emitted batch: `ident` repeated, or (ent="rand") `ident` followed by incompressible values."""
+    if not ent or rows == 0:
+        return [ident] * rows
+    import random
+
+    r = random.Random(ident * 7919 + rows)
+    return [ident] + [r.getrandbits(63) - (1 << 62) for _ in range(rows - 1)]
+
+
+class _EntropyOut:
+    """Proxy for the OutputCollector handed to `ScriptState.process`: `emit_pydict` emits the step's high-entropy column."""
+
+    def __init__(self, out: Any, b: dict[str, Any]) -> None:
+        object.__setattr__(self, "_o", out)
+        object.__setattr__(self, "_b", b)
+
+    def __getattr__(self, name: str) -> Any:
+        return getattr(self._o, name)
+
+    def emit_pydict(self, data: dict[str, Any], metadata: dict[str, str] | None = None) -> None:
+        b = self._b
+        self._o.emit_pydict({"x": column_values(b["id"], b.get("rows", 1), b.get("ent"))}, metadata=metadata)
+
+
+DIGESTS: list[str] = []      # content digest of every data batch the client received, in order
+
+
+def ev_data(ab: AnnotatedBatch) -> list[Any]:
+    b = ab.batch
+    DIGESTS.append(hashlib.sha256(repr(b.to_pydict()).encode()).hexdigest()[:16])
+    return svcgen._ev_data(ab)
 
 
 def _p_unary(self, a: int, pad: str) -> int: ...
@@ -450,6 +489,7 @@ def run_script(desc: dict[str, Any], script: list[list[Any]], cfg: ExtCfg, store
     """Ops: ["call", m, a, padlen] | ["open", m, a, padlen] | ["iter", n|None] | ["send", v, rows, meta?] | ["close"].
     Returns {"trace", "events", "marks", "hung", "uploads": [Upload…]}."""
     EVENTS.clear()
+    DIGESTS.clear()
     P, impl = build_ext(desc)
     storage = RecordingStorage(store, mutator)
     cur: list[list[Any]] = []
@@ -491,10 +531,10 @@ def run_script(desc: dict[str, Any], script: list[list[Any]], cfg: ExtCfg, store
                                 except StopIteration:
                                     cur.append(["end"])
                                     break
-                                cur.append(svcgen._ev_data(ab))
+                                cur.append(ev_data(ab))
                                 got += 1
                         elif kind == "send":
-                            cur.append(svcgen._ev_data(sess.exchange(make_input(op[1], op[2], op[3] if len(op) > 3 else None))))
+                            cur.append(ev_data(sess.exchange(make_input(op[1], op[2], op[3] if len(op) > 3 else None))))
                         elif kind == "close":
                             sess.close()
                             cur.append(["closed"])
@@ -520,6 +560,7 @@ def run_script(desc: dict[str, Any], script: list[list[Any]], cfg: ExtCfg, store
     result["events"] = list(EVENTS)
     result["uploads"] = list(storage.uploads)
     result["marks"] = list(marks)
+    result["digests"] = list(DIGESTS)
     return result
 
 
